@@ -23,11 +23,52 @@ var ErrDone = fmt.Errorf("%T instance can't be reused after %[1]T.Wait()", (*Pro
 // Progress represents a container that renders one or more progress bars.
 type Progress struct {
 	uwg          *sync.WaitGroup
-	pwg, bwg     sync.WaitGroup
+	pwg          sync.WaitGroup
+	bwg          barGroup
 	operateState chan func(*pState)
 	interceptIO  chan func(io.Writer)
 	done         <-chan struct{}
 	cancel       func()
+}
+
+// barGroup counts the goroutines of bars and of their shutdown listeners.
+// It is used like a sync.WaitGroup, but a bar may be added while the counter
+// is at zero and another goroutine is still returning from Wait (an Add
+// racing with cancellation of the container), which sync.WaitGroup answers
+// with a panic.
+type barGroup struct {
+	mu   sync.Mutex
+	n    int
+	zero chan struct{} // closed when n drops to zero, nil while n is zero
+}
+
+func (g *barGroup) Add(delta int) {
+	g.mu.Lock()
+	defer g.mu.Unlock()
+	if g.n == 0 && delta > 0 {
+		g.zero = make(chan struct{})
+	}
+	g.n += delta
+	if g.n < 0 {
+		panic("mpb: negative bar counter")
+	}
+	if g.n == 0 && g.zero != nil {
+		close(g.zero)
+		g.zero = nil
+	}
+}
+
+func (g *barGroup) Done() {
+	g.Add(-1)
+}
+
+func (g *barGroup) Wait() {
+	g.mu.Lock()
+	zero := g.zero
+	g.mu.Unlock()
+	if zero != nil {
+		<-zero
+	}
 }
 
 // pState holds bars in its priorityQueue, it gets passed to (*Progress).serve monitor goroutine.
